@@ -188,6 +188,8 @@ inline OptCase genOptCase(Rng &r, int order, int dim, int N, int combo, int flag
     go.base_hi = 3.0;
     go.ratio_cap = std::min(ratioCap(order), 3.0);
     oc.ref = genProblem(r, order, dim, N, go);
+    if (std::fabs(oc.ref.t0) > 1e4)
+        oc.ref.t0 = r.uni(-1e3, 1e3); // cost programs depend on global time: keep its rounding below the FD oracle's resolution
     oc.flags = OptFlags::fromByte(flagsByte >= 0 ? flagsByte : r.range(0, 255));
     oc.rho = r.coin(0.4) ? 0.0 : r.logUni(1e-3, 1.0);
     static const int Ks[] = {1, 2, 3, 7, 16, 64};
@@ -206,16 +208,28 @@ inline OptCase genOptCase(Rng &r, int order, int dim, int N, int combo, int flag
         oc.userTm = r.coin(0.2);
         oc.userSm = r.coin(0.2);
     }
-    if (r.coin(0.15))
+    if (r.coin(0.25))
     {
-        // penalty-style single-term running cost on data with exact zeros (rest-to-rest, waypoints on coordinate planes)
+        // penalty-style single-term running cost on data with exact zeros (rest-to-rest, waypoints at the origin or on
+        // coordinate planes, start time zero): such a cost is exactly zero at some samples while its partials are not
         oc.prog = CostProgram::generate(r, dim, -2);
-        if (r.coin(0.7))
+        if (r.coin(0.8))
         {
             oc.ref.bc.setZero(dim);
+            if (r.coin())
+                oc.ref.t0 = 0.0;
             for (int i = 0; i <= N; ++i)
-                if (r.coin(0.4))
+            {
+                if (r.coin(0.35))
+                    oc.ref.P.row(i).setZero();
+                else if (r.coin(0.4))
                     oc.ref.P(i, r.range(0, dim - 1)) = 0.0;
+            }
+            // the identity spatial map keeps exact zeros exact; boundary derivatives are optimised half of the time
+            if (flagsByte < 0 && r.coin())
+                oc.flags.f[1] = true;
+            if (flagsByte < 0 && r.coin())
+                oc.flags.f[5] = true;
         }
     }
     else
